@@ -14,7 +14,7 @@ def NOT_REPRODUCED(msg=''):
 
 
 import math, cmath
-a = Arc((-9.2-8.8j), (2+1j), 180.0, False, False, (-10-8j))
+a = Arc((-1.2-0.8j), (2+1j), 180.0, False, False, (1.1899134734239802+0.8037577255871446j))
 st, en, rot, fa, fs = a.start, a.end, a.rotation, a.large_arc, a.sweep
 rx0, ry0 = (2.0, 1.0)
 # independent F.6.5 / F.6.6
